@@ -43,7 +43,8 @@ def preflight(tier):
     l = lemmas.lemma_float_us()
     v = lemmas.validate_float_us(5000 if tier == "quick" else 100000)
     if not l["ok"]:
-        raise SystemExit(f"HARNESS-ERROR lemma L-float-us failed: {l}")
+        print(f"HARNESS-ERROR lemma L-float-us failed: {l}")
+        raise SystemExit(2)
     return {"symtime_differential_comparisons": n, "L-float-us": l, "L-float-us_validated_on_cpython_values": v, "validated": n + v}
 
 
